@@ -34,7 +34,8 @@ RULE = ('cases = (cube package with no aperture list, a list of one, two or 3-5 
         'model names stored in the cube in arbitrary (shuffled, un-padded numbered) order; extinction law tabulated in '
         'micron, nm, Angstrom or cm; distance range with theta*d inside or above the aperture table; 1-2 sources; selector N/A/C/D/E/F aimed at k = 1..5 selected fits, optional plot_max, plot_mode A or I, '
         'optional sources=[...] subset; filter wavelengths / apertures / A_V range start in varied units and values; '
-        'in a third of the cases the same package is fitted and plotted with 2-3 different extinction laws in turn in one process, '
+        'cube stored in mJy, Jy or uJy; in a fifth of the cases two models coincide at every fitted wavelength (exact chi2 tie '
+        'of their fits) and differ elsewhere; in a third of the cases the same package is fitted and plotted with 2-3 different extinction laws in turn in one process, '
         'every plot checked against its own fit; results passed as object, as FitInfoFile file or as the file fit(output_convolved=True) writes); every case is plotted in all four display modes; a case is '
         'non-trivial when at least one pass-through point (fit x filter x mode) is checked; distinct = '
         'distinct canonical hash of the generated inputs')
@@ -44,7 +45,7 @@ REQUIRED_BRANCHES = ['mode_interp', 'mode_largest', 'mode_largest+smallest', 'mo
                      'repeated_filter_aperture', 'distinct_filter_apertures', 'two_sources', 'ext_unit_micron', 'ext_unit_other',
                      'ext_unit_other_file_av_nonzero', 'cube_names_unsorted', 'aperture_list_of_one', 'two_apertures',
                      'selector_N', 'selector_other', 'plot_max', 'plot_mode_I', 'sources_subset', 'form_fitfile',
-                     'filter_units_other', 'av_range_not_from_zero', 'several_laws_same_package', 'later_law_av_nonzero', 'stored_increasing_wav', 'stored_decreasing_wav']
+                     'filter_units_other', 'av_range_not_from_zero', 'several_laws_same_package', 'later_law_av_nonzero', 'flux_unit_mJy', 'flux_unit_other', 'best_fit_tied', 'stored_increasing_wav', 'stored_decreasing_wav']
 ASSUMPTIONS = ['IEEE rounding is not modelled: model-vs-implementation tolerance 1e-9 relative on curve values',
                'pass-through against the stored predicted flux is checked to 2e-3 relative (the plot uses KPC = 3.086e21 cm, '
                'the package distance is astropy\'s kpc = 3.0857e21 cm: ratio^2 = 1 - 2.1e-4)',
@@ -145,10 +146,21 @@ def gen_case(rng, directed=None):
     else:
         dmin, dmax = 1., float(rng.choice([2, 5, 10]))
         step = 0.05
+    # unit in which the cube stores its flux densities (`val` holds the numbers in that unit)
+    flux_unit = directed.get('flux_unit', rng.choice(['mJy', 'mJy', 'Jy', 'uJy']))
+    to_mjy = FLUX_TO_MJY[flux_unit]
+    # two models equal at every fitted wavelength (all apertures) but different elsewhere: their fits tie exactly
+    dup = None
+    if directed.get('dup', rng.random() < 0.2) and nw > nf:
+        a_, b_ = rng.sample(range(nm), 2)
+        for ia in range(nap):
+            for wi in fidx:
+                val[b_][ia][wi] = val[a_][ia][wi]
+        dup = [a_, b_]
     nsrc = directed.get('nsrc', rng.choice([1, 1, 2]))
     sources = []
     for si in range(nsrc):
-        m = rng.randrange(nm)
+        m = dup[0] if (dup and si == 0) else rng.randrange(nm)
         d = rng.uniform(dmin, dmax)
         flags = [rng.choice([1, 1, 1, 1, 4, 3, 0]) for _ in range(nf)]
         for j in rng.sample(range(nf), 2):
@@ -156,7 +168,7 @@ def gen_case(rng, directed=None):
                 flags[j] = 1
         flux, err = [], []
         for j in range(nf):
-            f = val[m][rng.randrange(nap)][fidx[j]] / d ** 2 * 10 ** rng.uniform(-0.3, 0.3)
+            f = val[m][rng.randrange(nap)][fidx[j]] * to_mjy / d ** 2 * 10 ** rng.uniform(-0.3, 0.3)
             f = float('%.4g' % f)
             if flags[j] == 4:
                 flux.append(float('%.4f' % np.log10(f)))
@@ -188,10 +200,11 @@ def gen_case(rng, directed=None):
     return dict(wav=wav, aps=aps, val=val, fidx=fidx, theta=theta, tab_w=tw, tab_chi=chi, av=av_range,
                 drange=[dmin, dmax], step=step, sources=sources, k=k, forms=forms, names=names, ext_unit=ext_unit,
                 select=select, plot_max=plot_max, plot_mode=plot_mode, subset=subset, wav_unit=wav_unit, ap_unit=ap_unit,
-                laws=laws)
+                laws=laws, flux_unit=flux_unit, dup=dup)
 
 
-PLAIN = dict(n_laws=1, select='N', plot_max=None, plot_mode='A', subset=None, wav_unit='micron', ap_unit='arcsec', av_lo=0.)
+FLUX_TO_MJY = {'mJy': 1., 'Jy': 1000., 'uJy': 1e-3}
+PLAIN = dict(n_laws=1, flux_unit='mJy', dup=False, select='N', plot_max=None, plot_mode='A', subset=None, wav_unit='micron', ap_unit='arcsec', av_lo=0.)
 DIRECTED = [
     dict(PLAIN, multi=False, napkind='none', k=1, forms=['object', 'file'], nsrc=1, stored='inc', repeat=False, ext_unit='micron'),
     dict(PLAIN, multi=True, napkind='many', k=1, forms=['object', 'file'], nsrc=1, where='inside', stored='dec', repeat=False, ext_unit='micron'),
@@ -215,6 +228,11 @@ DIRECTED = [
     dict(PLAIN, multi=True, napkind='many', k=2, forms=['object', 'file'], nsrc=1, where='inside', n_laws=3),
     dict(PLAIN, multi=False, napkind='none', k=3, forms=['file', 'fitfile'], nsrc=2, n_laws=2, ext_unit='nm'),
     dict(PLAIN, multi=True, napkind='two', k=1, forms=['object'], nsrc=1, n_laws=2),
+    dict(PLAIN, multi=True, napkind='many', k=3, forms=['object', 'file'], nsrc=1, where='inside', flux_unit='Jy'),
+    dict(PLAIN, multi=False, napkind='none', k=2, forms=['file', 'fitfile'], nsrc=2, flux_unit='uJy'),
+    dict(PLAIN, multi=False, napkind='none', k=3, forms=['object', 'file'], nsrc=1, dup=True),
+    dict(PLAIN, multi=True, napkind='many', k=4, forms=['object', 'fitfile'], nsrc=1, where='inside', dup=True, flux_unit='Jy'),
+    dict(PLAIN, multi=True, napkind='two', k=2, forms=['file'], nsrc=2, where='mixed', dup=True),
 ]
 
 
@@ -273,7 +291,9 @@ def build(case, d, li=0):
     names = names_of(case)
     val = np.array(case['val'], dtype=float)
     if li == 0:                                  # later laws of the history reuse the same package
-        pk.write_cube_package(d, names, case['wav'], val, val * 0.1, apertures_au=case['aps'])
+        from astropy import units as u_
+        pk.write_cube_package(d, names, case['wav'], val, val * 0.1, apertures_au=case['aps'],
+                              unit=u_.Unit(case.get('flux_unit') or 'mJy'))
     ext = make_ext(case)
     fw, ap = filter_quantities(case)
     out = {}
@@ -329,6 +349,11 @@ def statistic(kind, chi2, n_data):
     if kind == 'E':
         return chi2 / n_data
     return (chi2 - chi2[0]) / n_data
+
+
+def n_tied(a, n):
+    """True when the best fit ties exactly with the next selected fit"""
+    return n >= 2 and float(a['chi2'][0]) == float(a['chi2'][1])
 
 
 def n_data_of(src):
@@ -399,8 +424,17 @@ def run_plots(case, built):
                 kw['sources'] = srcarg
             with common.quiet():
                 figs = plot(arg, **kw)
+            ref = None
+            if case.get('plot_mode', 'A') == 'A' and max(ns) >= 2 and (case.get('dup') or form == list(built)[0]):
+                # the best fit on its own (rank 1 of the result as given): what the LAST block of curves must be
+                kw1 = dict(kw, select_format=('N', 1))
+                kw1.pop('plot_max', None)
+                with common.quiet():
+                    f1 = plot(arg, **kw1)
+                ref = {name: [np.array(sg, dtype=float) for sg in f1[name]['lines'].get_segments()]
+                       for name in f1 if 'lines' in f1[name]}
             out[(form, mode)] = ({name: ([np.array(sg, dtype=float) for sg in figs[name]['lines'].get_segments()]
-                                         if 'lines' in figs[name] else None) for name in figs}, fmt, ns)
+                                         if 'lines' in figs[name] else None) for name in figs}, fmt, ns, ref)
     return out
 
 
@@ -432,7 +466,7 @@ def property_check(case, built, figs):
     npts = 0
     wav_seen = sorted(case['wav'], reverse=True)          # increasing frequency, as plot reads the cube
     _, let_through = plotted_sources(case)
-    for (form, mode), (per_src, fmt, ns) in figs.items():
+    for (form, mode), (per_src, fmt, ns, ref) in figs.items():
         recs = built[form][1]
         what = 'form=%s mode=%s select_format=%r plot_max=%r plot_mode=%r' % (
             form, mode, fmt, case.get('plot_max'), case.get('plot_mode', 'A'))
@@ -450,6 +484,19 @@ def property_check(case, built, figs):
             if len(segs) != len(order) * nc:
                 return False, ('%s source=%s: %d curves drawn; property: %d fits shown (of %d selected) x %d apertures shown = %d'
                                % (what, name, len(segs), len(order), n, nc, len(order) * nc)), npts
+            if ref is not None and n >= 1:
+                # best fit drawn last: the last block is, point for point, what plot() draws for fit 0 alone
+                last = segs[-nc:]
+                alone = ref.get(name) or []
+                same = len(alone) == nc and all(x.shape == y.shape and np.allclose(x, y, rtol=1e-12, atol=0.)
+                                               for x, y in zip(last, alone))
+                if not same:
+                    tied = n >= 2 and float(a['chi2'][0]) == float(a['chi2'][1])
+                    return False, ('%s source=%s: the last %d curve(s) drawn are not those of the best fit (rank 1 of the result: '
+                                   'model %s, chi2=%r%s): last block %r..., best fit alone %r...'
+                                   % (what, name, nc, a['name'][0], float(a['chi2'][0]),
+                                      '; tied exactly with rank 2, model %s' % a['name'][1] if tied else '',
+                                      last[0][:3, 1].tolist() if last else None, alone[0][:3, 1].tolist() if alone else None)), npts
             for b, i in enumerate(order):
                 block = segs[b * nc:(b + 1) * nc]              # the best fit (i = 0) is the last block
                 for j, wi in enumerate(case['fidx']):
@@ -499,7 +546,7 @@ def model_curves(case, mode, a, fits_best_first):
         line += [rat(a['sc'][i]), rat(a['av'][i]), str(len(wav_seen))]
         for lam in wav_seen:
             wi = case['wav'].index(lam)
-            line += [rat(lam), rat(C_LIGHT_UM / lam), rats([case['val'][m][ia][wi] for ia in range(len(case['val'][m]))])]
+            line += [rat(lam), rat(C_LIGHT_UM / lam), rats([case['val'][m][ia][wi] * FLUX_TO_MJY[case.get('flux_unit') or 'mJy'] for ia in range(len(case['val'][m]))])]
     t = common.driver().ask(' '.join(line))
     kind = t.tok()
     if kind == 'E':
@@ -521,7 +568,7 @@ def model_through(case, a, i, ks):
     for j, wi in enumerate(case['fidx']):
         lam = case['wav'][wi]
         line += [rat(th[j]), rat(ks[j]), rat(C_LIGHT_UM / lam),
-                 rats([case['val'][m][ia][wi] for ia in range(len(case['val'][m]))])]
+                 rats([case['val'][m][ia][wi] * FLUX_TO_MJY[case.get('flux_unit') or 'mJy'] for ia in range(len(case['val'][m]))])]
     t = common.driver().ask(' '.join(line))
     n = t.nat()
     return [(t.rat(), t.rat()) for _ in range(n)]
@@ -618,6 +665,7 @@ def _run_law(case, d, li, branches, key):
         branches.add('ext_unit_other' if other_unit else 'ext_unit_micron')
         nn = names_of(case)
         branches.add('cube_names_sorted' if nn == sorted(nn) else 'cube_names_unsorted')
+        branches.add('flux_unit_mJy' if (case.get('flux_unit') or 'mJy') == 'mJy' else 'flux_unit_other')
         _, let_through = plotted_sources(case)
         t = common.driver().ask('getav %s %d %s %s' % (
             rat(0.55), len(case['tab_w']),
@@ -635,6 +683,8 @@ def _run_law(case, d, li, branches, key):
                 if s['name'] not in let_through:
                     continue
                 ns = figs[(form, MODES[0])][2]
+                if n_tied(a, ns[si]):
+                    branches.add('best_fit_tied')
                 n = ns[si]
                 if n == 0:
                     branches.add('zero_fits_selected')
